@@ -310,9 +310,27 @@ def local_import_closure(root_modules):
 
 
 def leanchecker(modules, timeout=3000):
-    """independent re-check of the compiled .olean files of these modules"""
-    rc, out, dt = run(['lake', 'env', 'leanchecker'] + list(modules), cwd=LEAN, timeout=timeout)
-    return rc == 0, out[-2000:], dt
+    """independent re-check of the compiled .olean files of these modules. It needs 10-25 GB for the Mathlib-importing closures, so
+    concurrent runs are serialised by a file lock, and a run killed by a signal (the kernel's OOM killer) is retried once; the third
+    component of the result is 'killed' when it never completed (infrastructure, says nothing about the modules)."""
+    import fcntl
+    lock = LEAN / '.lake' / 'leanchecker.lock'
+    lock.parent.mkdir(parents=True, exist_ok=True)
+    t0 = time.time()
+    with open(lock, 'w') as lf:
+        fcntl.flock(lf, fcntl.LOCK_EX)
+        try:
+            for attempt in range(2):
+                rc, out, _ = run(['lake', 'env', 'leanchecker'] + list(modules), cwd=LEAN, timeout=timeout)
+                killed = rc < 0 or rc in (137, 143) or (rc != 0 and not out.strip())
+                if not killed:
+                    break
+                time.sleep(20)
+        finally:
+            fcntl.flock(lf, fcntl.LOCK_UN)
+    if killed:
+        return False, 'killed (signal / out of memory): ' + out[-300:], time.time() - t0
+    return rc == 0, out[-2000:], time.time() - t0
 
 
 MV_THEOREMS = {'conf_consts_eq', 'conf_up_eq', 'conf_homo_eq', 'conf_down_eq', 'g3c_translation_rotor_eq', 'g3c_dilation_rotor_eq',
